@@ -3,7 +3,7 @@ Q, T = "quick", "thorough"
 PROP = dict(
     level="exploration",
     level_text="Round-trip monitor on the real Serializer/MemPacker: EclipseState, Schedule, SummaryConfig and per-step ScheduleStates "
-               "built from generated models (44 schedule keyword templates) and from the shipped decks, and SummaryState / UDQState / "
+               "built from generated models (70 schedule keyword templates) and from the shipped decks, TableManager objects with 3-12 table families (of the ~45 simple-table families of the tree that can be given acceptable data reflectively; 1-3 regions each; ROCKTAB and PLYSHLOG, which serializeOp treats specially), and SummaryState / UDQState / "
                "WellTestState / RestartValue filled with random content through their real update paths, are packed, unpacked into a "
                "fresh object and compared by the class' own operator==, by a structural dump of every serialised member, by a "
                "hand-written dump of the public queries (independent of serializeOp and operator==), by re-packing (same length) and "
@@ -18,10 +18,12 @@ PROP = dict(
     stages=[
         dict(id="gen", harness="c11_serial", flavour="plain", cases={Q: 400, T: 12000}, timeout={Q: 900, T: 7200}, args=["mode=gen"]),
         dict(id="shipped", harness="c11_serial", flavour="plain", cases={Q: 52, T: 52}, timeout={Q: 1200, T: 3600}, args=["mode=shipped"]),
+        dict(id="tables", harness="c11_serial", flavour="plain", cases={Q: 3000, T: 150000}, timeout={Q: 900, T: 7200}, args=["mode=tables"]),
         dict(id="dyn", harness="c11_serial", flavour="plain", cases={Q: 4000, T: 200000}, timeout={Q: 900, T: 7200}, args=["mode=dyn"]),
+        dict(id="tables_asan", harness="c11_serial", flavour="asan", cases={Q: 300, T: 6000}, timeout={Q: 900, T: 7200}, args=["mode=tables"]),
         dict(id="gen_asan", harness="c11_serial", flavour="asan", cases={Q: 48, T: 1000}, timeout={Q: 900, T: 7200}, args=["mode=gen"]),
     ],
-    min_nontrivial={Q: 2000, T: 50000},
-    coverage_floor=[("gen", "round_trips", {Q: 1000, T: 30000}), ("shipped", "round_trips", 100)],
+    min_nontrivial={Q: 4000, T: 100000},
+    coverage_floor=[("gen", "round_trips", {Q: 1000, T: 30000}), ("shipped", "round_trips", 100), ("tables", "round_trips", {Q: 2000, T: 100000})],
     assumptions=["byte equality of re-packed buffers is not required (unordered containers), only length and meaning"],
 )
